@@ -165,6 +165,7 @@ pub fn check_sort_plain(xs: &[MVal], salt: u64, l: &mut Local) -> Check {
         }
     }
     l.nontrivial(hash_of(&(canon(&arr), salt, 1)));
+    l.sample(|| json!({"template": "{% for e in xs | sort %}..{% endfor %}", "case": case.clone(), "observed": got.to_json()}));
     Ok(())
 }
 
@@ -304,6 +305,7 @@ pub fn check_group_by(keys: &[Option<MVal>], salt: u64, l: &mut Local) -> Check 
         _ => unreachable!(),
     }
     l.nontrivial(hash_of(&(canon(&arr), salt, 3)));
+    l.sample(|| json!({"template": "xs | group_by(attribute=\"k\")", "case": case.clone(), "observed": got.to_json()}));
     Ok(())
 }
 
